@@ -509,6 +509,14 @@ def run(fx, rep, tier):
         r4_operators(facts, sub)
         r5_percent(facts, sub)
         r6_fold(facts, sub)
+        if cfg == "dev":
+            sub.rule("C01-R7", "literals are read exactly: the reader is the decimal-literal transducer (shared with C07-R4)")
+            from . import c07
+            s7 = type(rep)(rep.prop, rep.tier)
+            c07.r4_reader(facts, s7, "quick")
+            for o in s7.obls:
+                o["rule"] = "C01-R7"
+                sub.obls.append(o)
         if sub is not rep:
             for o in sub.obls:
                 o["key"] += "[rel]"
